@@ -215,6 +215,7 @@ impl Session {
                     .join(" ")
             }
             ["state"] => state_name(self.interp.get_state()).to_string(),
+            ["reads"] => hooks::token_reads(&self.interp).to_string(),
             ["snap"] => hooks::snapshot(&self.interp),
             ["caret", h] => {
                 let Some(err) = &self.last_err else {
